@@ -76,6 +76,13 @@ def step (w : World) : Op → World × Out
       | none => (w', .mismatch)
   | .advance dt => ({ w with now := w.now + dt }, .ticked)
 
+/-- the redirect_uri the token request carries (`_format_state_params` + `fetch_access_token`): the one saved for the
+    state; only when none was saved, the provider's registered default -/
+def sentRedirect (defaults : List (String × String)) (name : String) (d : Data) : Option String :=
+  match d.redirect with
+  | some r => some r
+  | none => defaults.lookup name
+
 /-- a history: the ops so far, newest last, with the worlds they produced -/
 def run (w : World) (ops : List Op) : World := ops.foldl (fun st op => (step st op).1) w
 
